@@ -6,7 +6,7 @@ func init() {
 	register(&Def{
 		ID:          "C10",
 		Technique:   "static lockset (must-hold, interprocedural) over Send/Close sites; typestate of the running field; single-reader call-graph rule; byte provenance of Send arguments",
-		Explanation: "Decides, for every path and schedule at once: (D1) every Send and Close on a channel owned by a Server or Client executes with that owner's mutex held, so no two Sends and no Send/Close overlap; (D2) each owner has exactly one Recv site, reachable only from one go statement of its start function; (D3) Close is called in one function per owner, guarded by the running state and followed by clearing it before the lock is released, and started at most once per run; (D4) every byte slice passed to Send is the successful result of the message encoder (or guarded non-empty), and batch encodings are non-empty. (D5) the stop functions clear the channel field only after Close was called (no stop cause skips it). (D6) in the server and jhttp packages a channel handed to Start/NewClient is never closed by the wrapper on a path with the hand-off.",
+		Explanation: "Decides, for every path and schedule at once: (D1) every Send and Close on a channel owned by a Server or Client executes with that owner's mutex held, so no two Sends and no Send/Close overlap; (D2) each owner has exactly one Recv site, reachable only from one go statement of its start function; (D3) Close is called in one function per owner, guarded by the running state and followed by clearing it before the lock is released, and started at most once per run; (D4) every byte slice passed to Send is the successful result of the message encoder (or guarded non-empty), and batch encodings are non-empty. (D5) the stop functions clear the channel field only after Close was called (no stop cause skips it). (D6) in the server and jhttp packages a channel handed to Start/NewClient is never closed by the wrapper on a path with the hand-off. (D7) every source of a Send argument is an encoder's result (or nil, refused by the emptiness guard): text assembled by formatting never reaches the channel.",
 		NotDecided:  []string{"behaviour of user-supplied Channel implementations", "that encoder output is well-formed JSON for every value (C13; encoding/json assumed)"},
 		Assumptions: []string{"sync.Mutex provides mutual exclusion", "no code outside the repository can reach the unexported locks or fields"},
 		RuleText:    ruleText,
